@@ -10,7 +10,7 @@ CLAIMS = {
     technique="Lean 4 theorems (induction over blocks, omega) + enc-stream correspondence (real bytes decoded by the Lean spec decoder) + direct round-trip oracle",
     ref="7/C01"),
   "C02": dict(
-    text="Lean 4: constants/field widths/flag layout/dtype table extracted from /repo equal the frozen ones (decide), header round trip and size for every dtype and flag combination. Tie: every emitted byte stream is decoded by the independent Lean decoder (frozen grammar) exactly to its last byte, flags/metadata/numbers compared with what was compressed and with the returned ChunkMetadata, and the spec encoder reproduces the bytes bit for bit; the 8 shipped asset files decode to their .bin values under the frozen grammar.",
+    text="Lean 4: constants/field widths/flag layout/dtype table extracted from /repo equal the frozen ones (decide), header round trip and size for every dtype and flag combination. Tie: every emitted byte stream is decoded by the independent Lean decoder (frozen grammar) exactly to its last byte, flags/metadata/numbers compared with what was compressed and with the returned ChunkMetadata, and the spec encoder reproduces the bytes bit for bit; the 8 shipped asset files decode to their .bin values under the frozen grammar. Layer W (C02w): a statement-level Lean model of trained_compress_chunk_nums (CompressionTable::from_sorted/search, compress_nums, compress_offset_bits_w_prefix over the word-level BitWriter model) is PROVED to emit exactly encBody of the greedy blocks for every table of disjoint ranges with counts >= 1 and every input, and InvalidArgument exactly when a number is uncovered (search = findPrefix; from_sorted terminates: no child gets the whole slice; with a zero count it diverges - proved, unreachable from training); tied to the real function through a guarded hook (bodywrite stream).",
     note="The Lean decoder is the independent decoder; it is trusted as the statement of the format (validated against assets written by 0.4-0.10). GCD field width uses hardware floats in the driver only.",
     technique="Lean 4 spec of the format + decide against regenerated constants + enc-stream correspondence",
     ref="7/C02"),
@@ -20,8 +20,8 @@ CLAIMS = {
     technique="Lean 4 theorems (induction over flag bytes) + dops-stream correspondence",
     ref="7/C16"),
   "C03": dict(
-    text="Lean 4: for EVERY well-formed file of the frozen grammar (any complete prefix tree, overlapping ranges, any legal divisor, runs on any range, jumpstart 0..24, the legacy flag combinations, zero-count chunk, n <= order, any delta order) the operational model of the decompressor returns exactly the numbers the file encodes: whole-file (simple_decompress) and chunk API (header, chunk_metadata, chunk_body), for every Huffman lookup that is sound w.r.t. the specification matcher, fails only for lack of data and answers once 5 more bits follow (WeakLazyOf) — proved to hold of matchStride, the position-aware model of the real 6-bit-stride table (which is provably NOT prefix-safe: more data can turn an answer back into insufficient) — so the theorems are instantiated for the real lookup model; proved by refinement of the operational model to the specification decoder + the file-level round trip. Tie: random syntax trees encoded by the Lean spec encoder and decoded by the real library in three modes; the 8 shipped assets through both decoders.",
-    note="matchStride is tied to HuffmanTable::search_with_reader/read_prefix_table_idx by the dops correspondence (partial batches and bit positions compared on every line). Depth-31 trees (2 GiB validation table) are not generated.",
+    text="Lean 4: for EVERY well-formed file of the frozen grammar (any complete prefix tree, overlapping ranges, any legal divisor, runs on any range, jumpstart 0..24, the legacy flag combinations, zero-count chunk, n <= order, any delta order) the operational model of the decompressor returns exactly the numbers the file encodes: whole-file (simple_decompress) and chunk API (header, chunk_metadata, chunk_body), for every Huffman lookup that is sound w.r.t. the specification matcher, fails only for lack of data and answers once 5 more bits follow (WeakLazyOf) — proved to hold of matchStride, the position-aware model of the real 6-bit-stride table (which is provably NOT prefix-safe: more data can turn an answer back into insufficient) — so the theorems are instantiated for the real lookup model; proved by refinement of the operational model to the specification decoder + the file-level round trip. Tie: random syntax trees encoded by the Lean spec encoder and decoded by the real library in three modes; the 8 shipped assets through both decoders. Layer N (C03n): a statement-level Lean model of NumDecompressor::decompress_unsigneds_limited_dirty (incomplete-prefix resume, the guaranteed_safe_num_blocks fast path with unchecked reads and unchecked table lookup, checked tail) is PROVED equal to the abstract batch decoder the refinement theorems use (numDec_refines), never to index out of bounds or underflow (numDec_no_panic), the guard arithmetic is proved sound (fast_guard_sound: max_bits_read + overshoot really bound every unchecked block) and unchecked block = checked block under the guard; tied to the real NumDecompressor through a guarded hook (numdec stream, chained calls).",
+    note="matchStride is tied to HuffmanTable::search_with_reader/read_prefix_table_idx by the dops correspondence and proved equal to the literal table model (HT.search_outcome). In layer N unsigned overflow of lower + offset*gcd and the f64 computation of k are not modelled (k is the exact floor log2). Depth-31 trees (2 GiB validation table) are not generated.",
     technique="Lean 4 refinement proof (operational model -> spec decoder) + AST-generator correspondence",
     ref="7/C03"),
   "C04": dict(
@@ -40,7 +40,7 @@ CLAIMS = {
     technique="Lean 4 prefix-safety invariant of the parser monad + refinement + exhaustive truncation sweep",
     ref="7/C06"),
   "C07": dict(
-    text="partial. Lean 4 (on arbitrary input bits, no well-formedness assumed): every decoded offset is <= its range (no underflow of k_range - offset), every decoded value lower + off*gcd <= upper < 2^W (no overflow of the W-bit type), k <= W with the shift skipped exactly when k = W, everything the metadata parser accepts is bounded (lower <= upper, valid bounds < 2^W, 1 <= gcd, code length < 32, counts/sizes within their fields), run counts < 2^24 (2^31 for hostile jumpstarts), a batch never exceeds min(limit, remaining), nProcessed <= n, bits_remaining saturates and skip stays inside the data, every operation leaves the reader inside the written data (Advances), complete trees never make the lookup fail other than for lack of data; these hold in every state reachable from the initial one on arbitrary bytes (invariant HInv preserved by all operations). Termination = totality of the model. NOT covered by theorems: word-level BitReader/BitWords shifts and indexing, the fast path's guaranteed_safe_num_blocks bound, memory exhaustion. Tie: mutation fuzz (bit flips, substitutions, splices, deletions, duplications, truncations, size-field attacks, random bytes) of files of every dtype through every decode entry point and mixed call sequences under overflow checks: no panic/hang/abort; a sample compared with the operational model (class, kinds, bit positions).",
+    text="partial. Lean 4 (on arbitrary input bits, no well-formedness assumed): every decoded offset is <= its range (no underflow of k_range - offset), every decoded value lower + off*gcd <= upper < 2^W (no overflow of the W-bit type), k <= W with the shift skipped exactly when k = W, everything the metadata parser accepts is bounded (lower <= upper, valid bounds < 2^W, 1 <= gcd, code length < 32, counts/sizes within their fields), run counts < 2^24 (2^31 for hostile jumpstarts), a batch never exceeds min(limit, remaining), nProcessed <= n, bits_remaining saturates and skip stays inside the data, every operation leaves the reader inside the written data (Advances), complete trees never make the lookup fail other than for lack of data; these hold in every state reachable from the initial one on arbitrary bytes (invariant HInv preserved by all operations). Termination = totality of the model. Since added: the word-level BitReader/BitWords model (layer B specs), the literal Huffman table lookup (HT.search_outcome, uncheckedSearch_eq) and the literal NumDecompressor batch with its unchecked fast path (C03n.numDec_no_panic, fast_guard_sound: no out-of-bounds word index, no usize underflow, the guaranteed_safe_num_blocks guard proved sound). NOT covered by theorems: overflow of lower + offset*gcd in U, the metadata parser's statements at word level, memory exhaustion. Tie: mutation fuzz (bit flips, substitutions, splices, deletions, duplications, truncations, size-field attacks, field-aware forgeries of every metadata field located by the spec decoder's field map, random bytes) of files of every dtype through every decode entry point and mixed call sequences under overflow checks: no panic/hang/abort; a sample compared with the operational model (class, kinds, bit positions).",
     note="partial: the unverified parts are exactly where a panic could still hide on inputs the fuzz does not generate.",
     technique="Lean 4 safety lemmas + reachable-state invariant on the operational model + mutation fuzz with model comparison",
     ref="7/C07"),
@@ -120,7 +120,7 @@ def main():
             "guard": "--cfg mwlon_quantile_compression_verif",
             "enable": "the harness is built with RUSTFLAGS='--cfg mwlon_quantile_compression_verif' (tools/qco/common.py build_harness); this compiles q_compress/src/verif.rs, an add-only module of public wrappers that run operation scripts on the crate-private BitWords/BitReader/BitWriter; every other observable is public API. Without the flag the module does not exist and the library is unchanged.",
             "baseline_off_cmd": "cd /repo && cargo test --workspace --no-fail-fast --offline",
-            "source_commits": ["c2fc263"],
+            "source_commits": ["c2fc263", "dfa6be0"],
             "add_only": True,
         },
         "engines": [{
